@@ -1,6 +1,7 @@
 package main
 
 import (
+	"context"
 	"bytes"
 	"crypto/tls"
 	"fmt"
@@ -113,12 +114,12 @@ func TestC04ListenerShares(t *testing.T) {
 			case "http":
 				proxy.ListenAndServeHTTP(l, httpHandler, nil)
 			case "tcp":
-				proxy.ListenAndServeTCP(l, &tcp.Proxy{Lookup: lookupHostFn(cfg, dp.NewCounter("nf")), DialTimeout: time.Second}, nil)
+				proxy.ListenAndServeTCP(l, &tcp.Proxy{Lookup: flexAs[func(string) *route.Target](lookupHostFn, cfg, dp.NewCounter("nf")), DialTimeout: time.Second}, nil)
 			case "tcp+sni":
-				proxy.ListenAndServeTCP(l, &tcp.SNIProxy{Lookup: lookupHostFn(cfg, dp.NewCounter("nf")), DialTimeout: time.Second}, nil)
+				proxy.ListenAndServeTCP(l, &tcp.SNIProxy{Lookup: flexAs[func(string) *route.Target](lookupHostFn, cfg, dp.NewCounter("nf")), DialTimeout: time.Second}, nil)
 			case "https+tcp+sni":
 				tlscfg := &tls.Config{Certificates: []tls.Certificate{cert}}
-				proxy.ListenAndServeHTTPSTCPSNI(l, httpHandler, &tcp.SNIProxy{Lookup: lookupHostFn(cfg, dp.NewCounter("nf")), DialTimeout: time.Second}, tlscfg, lookupHostMatcher(cfg))
+				proxy.ListenAndServeHTTPSTCPSNI(l, httpHandler, &tcp.SNIProxy{Lookup: flexAs[func(string) *route.Target](lookupHostFn, cfg, dp.NewCounter("nf")), DialTimeout: time.Second}, tlscfg, flexAs[func(context.Context, string) bool](lookupHostMatcher, cfg))
 			}
 		}()
 		if !waitListening(addr) {
